@@ -2378,6 +2378,9 @@ class GroupBy:
             # the kernel needs global codes, not per-chunk local codes
             self._unify_group_key_chunks()
 
+        # length and index of the values must match the group keys
+        self._preprocess_arguments(values, None)
+
         return numba_funcs.group_nearby_members(
             group_key=self.group_ikey,
             values=values,
